@@ -262,7 +262,7 @@ def _run(args, inp, extra_files=()):
         shutil.rmtree(d, ignore_errors=True)
 
 
-def signature_template(ref_id, alg="rsa-sha1", cert_body=None, sig_id=None, prefix="ds"):
+def signature_template(ref_id, alg="rsa-sha1", cert_body=None, sig_id=None, prefix="ds", ref_uri=None):
     sm, dm = SIG_ALGS[alg]
     ki = ""
     if cert_body == "KEYVALUE":
@@ -274,15 +274,15 @@ def signature_template(ref_id, alg="rsa-sha1", cert_body=None, sig_id=None, pref
     return ('<{p}:Signature xmlns:{p}="{ds}"{sid}><{p}:SignedInfo>'
             '<{p}:CanonicalizationMethod Algorithm="http://www.w3.org/2001/10/xml-exc-c14n#"/>'
             '<{p}:SignatureMethod Algorithm="{sm}"/>'
-            '<{p}:Reference URI="#{rid}"><{p}:Transforms>'
+            '<{p}:Reference URI="{uri}"><{p}:Transforms>'
             '<{p}:Transform Algorithm="http://www.w3.org/2000/09/xmldsig#enveloped-signature"/>'
             '<{p}:Transform Algorithm="http://www.w3.org/2001/10/xml-exc-c14n#"/></{p}:Transforms>'
             '<{p}:DigestMethod Algorithm="{dm}"/><{p}:DigestValue/></{p}:Reference></{p}:SignedInfo>'
             '<{p}:SignatureValue/>{ki}</{p}:Signature>').format(
-        p=prefix, ds=DS, sm=sm, dm=dm, rid=ref_id, ki=ki, sid=(' Id="%s"' % sig_id) if sig_id else "")
+        p=prefix, ds=DS, sm=sm, dm=dm, uri=("#" + ref_id) if ref_uri is None else ref_uri, ki=ki, sid=(' Id="%s"' % sig_id) if sig_id else "")
 
 
-def sign_element(text, ns, local, node_id, key_file, alg="rsa-sha1", cert_body=None, id_attr="ID"):
+def sign_element(text, ns, local, node_id, key_file, alg="rsa-sha1", cert_body=None, id_attr="ID", ref_uri=None):
     """Insert an enveloped signature template after the element's Issuer (or first) and
     have the driver fill it.  Returns signed text (str).  Raises RuntimeError on failure."""
     doc = Doc(text)
@@ -290,7 +290,7 @@ def sign_element(text, ns, local, node_id, key_file, alg="rsa-sha1", cert_body=N
     if not targets:
         raise RuntimeError("no %s with %s=%s" % (local, id_attr, node_id))
     t = targets[0]
-    tmpl = signature_template(node_id, alg, cert_body)
+    tmpl = signature_template(node_id, alg, cert_body, ref_uri=ref_uri)
     iss = t.child(SAML, "Issuer")
     doc = doc.insert_after(iss, tmpl) if iss is not None else doc.prepend_child(t, tmpl)
     rc, err, out = _run(["--sign", "--privkey-pem", key_file, "--id-attr:" + id_attr, "%s:%s" % (ns, local),
